@@ -1119,6 +1119,9 @@ class hevm_cheat_code:
                 new_ex.halt(data=ByteVec(), error=FailCheatcode(f"{vm_assert}"))
                 stack.push(new_ex)
 
+                # the current path continues only for the inputs that satisfy the assertion
+                ex.path.append(cond, branching=True)
+
             return ret
 
         # vm.assume(bool)
